@@ -1,10 +1,10 @@
 /* Scalar kernels: byte assembly (C02 C12 C19), derived header counts (C05). */
-#include "vf_contracts.h"
+#include "vf_harness.h"
 size_t vf_gk, vf_gj, vf_gc;
 
 /* ---------------------------------------------------------------- c3d::hex2uint */
 unsigned int contract_c3d__hex2uint(struct c3d *self, const char *val, unsigned int len)
-__CPROVER_requires(vf_exc == 0 && len <= 4 && __CPROVER_is_fresh(val, 4))
+__CPROVER_requires(vf_exc == 0 && len <= 4 && __CPROVER_r_ok(val, 4))
 /*@ C12 C02 : hex2uint.len0 */ __CPROVER_ensures(len == 0 ==> __CPROVER_return_value == 0)
 /*@ C12 C02 : hex2uint.len1 */ __CPROVER_ensures(len == 1 ==> __CPROVER_return_value == VF_U8(val, 0))
 /*@ C12 C02 : hex2uint.len2 */ __CPROVER_ensures(len == 2 ==> __CPROVER_return_value == VF_U16(val, 0))
@@ -15,8 +15,8 @@ __CPROVER_assigns();
 
 void h_hex2uint(void)
 {
-  struct c3d *self;
-  const char *val;
+  struct c3d *self = (struct c3d *)vf_alloc(sizeof(*self));
+  const char *val = (const char *)vf_alloc(4);
   unsigned int len;
   c3d__hex2uint(self, val, len);
   __CPROVER_assert(0, "VACUITY_CANARY");
@@ -24,7 +24,7 @@ void h_hex2uint(void)
 
 /* ---------------------------------------------------------------- c3d::hex2int (callee hex2uint by contract) */
 int contract_c3d__hex2int(struct c3d *self, const char *val, unsigned int len)
-__CPROVER_requires(vf_exc == 0 && (len == 1 || len == 2 || len == 4) && __CPROVER_is_fresh(val, 4))
+__CPROVER_requires(vf_exc == 0 && (len == 1 || len == 2 || len == 4) && __CPROVER_r_ok(val, 4))
 /*@ C12 C02 C17 : hex2int.int8 */ __CPROVER_ensures(len == 1 ==> __CPROVER_return_value == (int)(signed char)val[0])
 /*@ C12 C02 C17 : hex2int.int16 */ __CPROVER_ensures(len == 2 ==> __CPROVER_return_value == (int)(short)(unsigned short)VF_U16(val, 0))
 /*@ C12 C02 : hex2int.int32 */ __CPROVER_ensures(len == 4 ==> __CPROVER_return_value == (int)VF_U32(val, 0))
@@ -33,8 +33,8 @@ __CPROVER_assigns();
 
 void h_hex2int(void)
 {
-  struct c3d *self;
-  const char *val;
+  struct c3d *self = (struct c3d *)vf_alloc(sizeof(*self));
+  const char *val = (const char *)vf_alloc(4);
   unsigned int len;
   c3d__hex2int(self, val, len);
   __CPROVER_assert(0, "VACUITY_CANARY");
@@ -45,7 +45,7 @@ void h_hex2int(void)
 #define HDR16(h) ((h)->_nbAnalogByFrame <= 65535 && (h)->_nbAnalogsMeasurement <= 65535 && (h)->_nb3dPoints <= 65535)
 
 size_t contract_Header__nbAnalogs__void(const struct Header *self)
-__CPROVER_requires(vf_exc == 0 && __CPROVER_is_fresh(self, sizeof(*self)) && HDR16(self))
+__CPROVER_requires(vf_exc == 0 && __CPROVER_rw_ok(self, sizeof(*self)) && HDR16(self))
 /*@ C05 : Header_nbAnalogs.zero-subframes */ __CPROVER_ensures(self->_nbAnalogByFrame == 0 ==> __CPROVER_return_value == 0)
 /*@ C05 : Header_nbAnalogs.channels-times-subframes */
 __CPROVER_ensures(self->_nbAnalogByFrame != 0 ==> (__CPROVER_return_value * self->_nbAnalogByFrame <= self->_nbAnalogsMeasurement &&
@@ -55,13 +55,13 @@ __CPROVER_assigns();
 
 void h_Header_nbAnalogs(void)
 {
-  const struct Header *self;
+  struct Header *self = (struct Header *)vf_alloc(sizeof(*self));
   Header__nbAnalogs__void(self);
   __CPROVER_assert(0, "VACUITY_CANARY");
 }
 
 void contract_Header__nbAnalogs__sz(struct Header *self, size_t nbOfAnalogs)
-__CPROVER_requires(vf_exc == 0 && __CPROVER_is_fresh(self, sizeof(*self)) && HDR16(self) && nbOfAnalogs <= 65535)
+__CPROVER_requires(vf_exc == 0 && __CPROVER_rw_ok(self, sizeof(*self)) && HDR16(self) && nbOfAnalogs <= 65535)
 /*@ C05 : Header_setNbAnalogs.samples-per-frame */
 __CPROVER_ensures(self->_nbAnalogsMeasurement == nbOfAnalogs * self->_nbAnalogByFrame)
 /*@ C05 C10 : Header_setNbAnalogs.nothrow */ __CPROVER_ensures(vf_exc == 0)
@@ -69,14 +69,14 @@ __CPROVER_assigns(self->_nbAnalogsMeasurement);
 
 void h_Header_setNbAnalogs(void)
 {
-  struct Header *self;
+  struct Header *self = (struct Header *)vf_alloc(sizeof(*self));
   size_t n;
   Header__nbAnalogs__sz(self, n);
   __CPROVER_assert(0, "VACUITY_CANARY");
 }
 
 size_t contract_Header__nbFrames(const struct Header *self)
-__CPROVER_requires(vf_exc == 0 && __CPROVER_is_fresh(self, sizeof(*self)) && HDR16(self))
+__CPROVER_requires(vf_exc == 0 && __CPROVER_rw_ok(self, sizeof(*self)) && HDR16(self))
 /*@ C05 : Header_nbFrames.empty */
 __CPROVER_ensures((self->_nb3dPoints == 0 && (self->_nbAnalogByFrame == 0 || self->_nbAnalogsMeasurement < self->_nbAnalogByFrame))
                   ==> __CPROVER_return_value == 0)
@@ -88,7 +88,7 @@ __CPROVER_assigns();
 
 void h_Header_nbFrames(void)
 {
-  const struct Header *self;
+  struct Header *self = (struct Header *)vf_alloc(sizeof(*self));
   Header__nbFrames(self);
   __CPROVER_assert(0, "VACUITY_CANARY");
 }
@@ -97,7 +97,7 @@ void h_Header_nbFrames(void)
  * The clause "channels kept" is (a*k)/k == a in disguise: non-linear, no installed back end closes it
  * over 16-bit ranges (probe: >120 s), so it lives in a separate *bounded* contract (values <= 255). */
 void contract_Header__nbAnalogByFrame__sz(struct Header *self, size_t k)
-__CPROVER_requires(vf_exc == 0 && __CPROVER_is_fresh(self, sizeof(*self)) && HDR16(self) && k <= 65535)
+__CPROVER_requires(vf_exc == 0 && __CPROVER_rw_ok(self, sizeof(*self)) && HDR16(self) && k <= 65535)
 /*@ C05 : Header_setNbAnalogByFrame.stored */ __CPROVER_ensures(self->_nbAnalogByFrame == k)
 /*@ C05 : Header_setNbAnalogByFrame.no-subframes-no-samples */
 __CPROVER_ensures((__CPROVER_old(self->_nbAnalogByFrame) == 0 || k == 0) ==> self->_nbAnalogsMeasurement == 0)
@@ -106,7 +106,7 @@ __CPROVER_assigns(self->_nbAnalogsMeasurement, self->_nbAnalogByFrame);
 
 void h_Header_setNbAnalogByFrame(void)
 {
-  struct Header *self;
+  struct Header *self = (struct Header *)vf_alloc(sizeof(*self));
   size_t k;
   Header__nbAnalogByFrame__sz(self, k);
   __CPROVER_assert(0, "VACUITY_CANARY");
@@ -114,7 +114,7 @@ void h_Header_setNbAnalogByFrame(void)
 
 #define HDR8(h) ((h)->_nbAnalogByFrame <= 255 && (h)->_nbAnalogsMeasurement <= 255 && (h)->_nb3dPoints <= 255)
 void contract_B_Header__nbAnalogByFrame__sz(struct Header *self, size_t k)
-__CPROVER_requires(vf_exc == 0 && __CPROVER_is_fresh(self, sizeof(*self)) && HDR8(self) && k <= 255)
+__CPROVER_requires(vf_exc == 0 && __CPROVER_rw_ok(self, sizeof(*self)) && HDR8(self) && k <= 255)
 /*@ C05 : Header_setNbAnalogByFrame.samples-rescaled */
 __CPROVER_ensures(self->_nbAnalogsMeasurement ==
    (__CPROVER_old(self->_nbAnalogByFrame) == 0 ? 0 : __CPROVER_old(self->_nbAnalogsMeasurement) / __CPROVER_old(self->_nbAnalogByFrame)) * k)
@@ -126,7 +126,7 @@ __CPROVER_assigns(self->_nbAnalogsMeasurement, self->_nbAnalogByFrame);
 
 void h_B_Header_setNbAnalogByFrame(void)
 {
-  struct Header *self;
+  struct Header *self = (struct Header *)vf_alloc(sizeof(*self));
   size_t k;
   Header__nbAnalogByFrame__sz(self, k);
   __CPROVER_assert(0, "VACUITY_CANARY");
